@@ -205,6 +205,15 @@ AllNamesOf(m) == [i \in 1..Len(m.q) |-> m.q[i].n]
                  \o (LET rs == m.an \o m.ns \o m.ar
                          RECURSIVE F(_) F(i) == IF i > Len(rs) THEN <<>> ELSE <<rs[i].n>> \o rs[i].names \o F(i + 1) IN F(1))
 
+\* EDNS options laid out back to back fill the OPT data exactly
+RECURSIVE OptionsOK(_, _)
+OptionsOK(d, k) == IF k = Len(d) THEN TRUE
+                   ELSE IF Len(d) - k < 4 THEN FALSE
+                   ELSE LET n == d[k + 3] * 256 + d[k + 4] IN
+                        IF Len(d) - k - 4 < n THEN FALSE ELSE OptionsOK(d, k + 4 + n)
+RECURSIVE OptionCount(_, _)
+OptionCount(d, k) == IF k >= Len(d) THEN 0 ELSE 1 + OptionCount(d, k + 4 + d[k + 3] * 256 + d[k + 4])
+
 \* strict: the step is also required to succeed when no reason for failure applies
 EffectWhy(e, strict) ==
   LET a == CMsgX(e.pre)  b == CMsgX(e.post)  o == e.o  w == a.word
@@ -236,15 +245,19 @@ EffectWhy(e, strict) ==
          LET sec == SecOf(a, o.sec)
              full == Len(sec) >= 65535
              tooBig == ~o.rec.bad /\ USize(a) + RecUSize(o.rec.r) > MaxUncompressed
-             want == WithSec(a, o.sec, Append(sec, o.rec.r)) IN
+             want == WithSec(a, o.sec, Append(sec, o.rec.r))
+             \* an OPT pseudo-record is subject to message-level rules, like a second question
+             optBad == ~o.rec.bad /\ o.rec.r.t = TOPT
+                         /\ (o.sec # "AR" \/ HasOpt(DecodeT(e.pre)) \/ o.rec.r.n # <<>> \/ ~OptionsOK(o.rec.r.fixed, 0)) IN
          IF e.res = "ok" THEN
               IF o.rec.bad THEN "malformed record text was inserted"
+              ELSE IF optBad THEN "an OPT record was inserted where the parser does not accept one"
               ELSE IF b # want THEN "insert: the message is not the old one with the record appended to that section"
               ELSE IF Len(e.post) > MaxUncompressed THEN "insert produced a packet larger than the maximum uncompressed size"
               ELSE ""
          ELSE IF failOK # "" THEN failOK
          ELSE IF tooBig THEN (IF e.e = "Packet too large" \/ mayFail THEN "" ELSE "an insertion that would exceed the size limit failed with another error: " \o e.e)
-         ELSE IF ~o.rec.bad /\ ~full /\ ~mayFail /\ strict THEN "insert failed: " \o e.e
+         ELSE IF ~o.rec.bad /\ ~optBad /\ ~full /\ ~mayFail /\ strict THEN "insert failed: " \o e.e
          ELSE ""
     [] o.op = "insert_q" ->
          IF e.res = "ok" THEN
